@@ -249,7 +249,11 @@ func (s *Session) GetActiveStreamCount() int {
 // OpenStream is used to create a new stream
 func (s *Session) OpenStream() (*Stream, error) {
 	if s.IsClosed() {
-		return nil, s.shutdownErr
+		// Close() raises the shutdown flag before it records the reason: never hand out (nil, nil)
+		if err := s.shutdownErr; err != nil {
+			return nil, err
+		}
+		return nil, ErrSessionShutdown
 	}
 	if !s.IsHealthy() {
 		return nil, ErrSessionUnhealthy
